@@ -90,25 +90,27 @@ Proof. vm_compute. repeat split; reflexivity. Qed.
 
 (* ---- storage-call granularity: the two-call service (cas = false) has two read-modify-write windows ---- *)
 Lemma disconnect_window_refuted :
-  exists sched, rloc (fst (rrun false (rs_old, [RDisc 7 1 10 0; RConnect 7 2 20]) sched)) 7 = None /\
-                snd (rrun false (rs_old, [RDisc 7 1 10 0; RConnect 7 2 20]) sched) = [RDone; RDone].
+  exists sched, rloc (fst (rrun false false (rs_old, [RDisc 7 1 10 0; RConnect 7 2 20]) sched)) 7 = None /\
+                snd (rrun false false (rs_old, [RDisc 7 1 10 0; RConnect 7 2 20]) sched) = [RDone; RDone].
 Proof. exists [0;1;1;0]%nat. vm_compute. split; reflexivity. Qed.
 
 Lemma touch_window_refuted :
-  exists sched, rloc (fst (rrun false (rs_old, [REnsure 7 1 10 0; RConnect 7 2 20]) sched)) 7 = Some (1, 10) /\
-                snd (rrun false (rs_old, [REnsure 7 1 10 0; RConnect 7 2 20]) sched) = [RDone; RDone].
+  exists sched, rloc (fst (rrun false false (rs_old, [REnsure 7 1 10 0; RConnect 7 2 20]) sched)) 7 = Some (1, 10) /\
+                snd (rrun false false (rs_old, [REnsure 7 1 10 0; RConnect 7 2 20]) sched) = [RDone; RDone].
 Proof. exists [0;1;1;0]%nat. vm_compute. split; reflexivity. Qed.
 
 Lemma windows_sequential_ok :
-  rloc (fst (rrun false (rs_old, [RDisc 7 1 10 0; RConnect 7 2 20]) [0;0;1;1]%nat)) 7 = Some (2, 20) /\
-  rloc (fst (rrun false (rs_old, [RDisc 7 1 10 0; RConnect 7 2 20]) [1;1;0;0]%nat)) 7 = Some (2, 20) /\
-  rloc (fst (rrun false (rs_old, [REnsure 7 1 10 0; RConnect 7 2 20]) [0;0;1;1]%nat)) 7 = Some (2, 20) /\
-  rloc (fst (rrun false (rs_old, [REnsure 7 1 10 0; RConnect 7 2 20]) [1;1;0;0]%nat)) 7 = Some (2, 20).
+  rloc (fst (rrun false false (rs_old, [RDisc 7 1 10 0; RConnect 7 2 20]) [0;0;1;1]%nat)) 7 = Some (2, 20) /\
+  rloc (fst (rrun false false (rs_old, [RDisc 7 1 10 0; RConnect 7 2 20]) [1;1;0;0]%nat)) 7 = Some (2, 20) /\
+  rloc (fst (rrun false false (rs_old, [REnsure 7 1 10 0; RConnect 7 2 20]) [0;0;1;1]%nat)) 7 = Some (2, 20) /\
+  rloc (fst (rrun false false (rs_old, [REnsure 7 1 10 0; RConnect 7 2 20]) [1;1;0;0]%nat)) 7 = Some (2, 20).
 Proof. repeat split; vm_compute; reflexivity. Qed.
 
 (* ---- the repaired service (cas = true): the login survives every schedule ---- *)
 Section RStable.
   Variables X B b : N.
+  Variable rot : bool.
+  Hypothesis Hnz : B <> 0 \/ b <> 0.
 
   Lemma rval_eqb_eq a c : rval_eqb a c = true -> a = c.
   Proof.
@@ -137,7 +139,7 @@ Section RStable.
   (* one storage call of one safe invocation keeps the other invocations' guarantees *)
   Lemma rsafe_step lo sh :
     rsafe X B b lo ->
-    rsafe X B b (fst (rstep true lo sh)) /\ (rest X B b sh -> rest X B b (snd (rstep true lo sh))).
+    rsafe X B b (fst (rstep true rot lo sh)) /\ (rest X B b sh -> rest X B b (snd (rstep true rot lo sh))).
   Proof.
     intro Hs. destruct lo; cbn [rstep rsafe] in *; try contradiction.
     - (* RConnect *) split; [exact Hs|auto].
@@ -152,9 +154,16 @@ Section RStable.
         split; reflexivity.
       + split; [|auto]. destruct (Nat.ltb (S i) retries); exact I.
     - (* REnsureNX *)
+      destruct (rmap sh x) as [a|] eqn:Em; cbn [fst snd].
+      + split; [destruct (rot && is_tomb a); exact I|auto].
+      + split; [exact I|]. intro Hr. apply rest_write; [exact Hr|].
+        intro Ex. subst x. destruct Hr as [v Hv]. rewrite Hv in Em. discriminate.
+    - (* REnsureTomb *)
       split; [exact I|]. cbn [snd]. intro Hr.
-      destruct (rmap sh x) as [a|] eqn:Em; [exact Hr|].
-      apply rest_write; [exact Hr|]. intro Ex. subst x. destruct Hr as [v Hv]. rewrite Hv in Em. discriminate.
+      destruct (holds_val sh x tomb) eqn:Eh; [|exact Hr].
+      apply rest_write; [exact Hr|]. intro Ex. subst x. exfalso.
+      apply holds_val_eq in Eh. destruct Hr as [v Hv]. rewrite Hv in Eh. injection Eh as E1 E2 _.
+      destruct Hnz as [H|H]; congruence.
     - (* RDisc *)
       split; [|cbn [snd]; auto].
       destruct (live (rmap sh x)) as [[[n0 c0] v0]|] eqn:El; cbn [fst]; [|exact I].
@@ -174,14 +183,14 @@ Section RStable.
     - (* RDone *) split; [exact I|auto].
   Qed.
 
-  Lemma rinv_step i0 s i : rinv X B b i0 s -> rinv X B b i0 (sys_step rshared rprog (rstep true) s i).
+  Lemma rinv_step i0 s i : rinv X B b i0 s -> rinv X B b i0 (sys_step rshared rprog (rstep true rot) s i).
   Proof.
     intros [HF HM]. destruct s as [sh ls]. unfold sys_step. cbn [fst snd] in *.
     destruct (nth_error ls i) as [lo|] eqn:E; [|split; assumption].
     assert (Hlo : rsafe X B b lo).
     { apply (proj1 (Forall_forall _ _) HF). apply (nth_error_In _ _ E). }
     destruct (rsafe_step lo sh Hlo) as [S1 S2].
-    destruct (rstep true lo sh) as [lo' sh'] eqn:Et. cbn [fst snd] in *.
+    destruct (rstep true rot lo sh) as [lo' sh'] eqn:Et. cbn [fst snd] in *.
     split.
     - clear - HF S1. revert i. induction ls as [|h t IH]; intros [|j]; cbn; try exact HF.
       + inversion HF; subst. constructor; assumption.
@@ -200,20 +209,19 @@ Section RStable.
         apply S2. exact HM.
   Qed.
 
-  Lemma rinv_run i0 sched s : rinv X B b i0 s -> rinv X B b i0 (rrun true s sched).
+  Lemma rinv_run i0 sched s : rinv X B b i0 s -> rinv X B b i0 (rrun true rot s sched).
   Proof.
     intro H. unfold rrun.
-    apply (inv_all_schedules rshared rprog (rstep true) (rinv X B b i0)); [|exact H].
+    apply (inv_all_schedules rshared rprog (rstep true rot) (rinv X B b i0)); [|exact H].
     intros s' i Hs. apply rinv_step. exact Hs.
   Qed.
 
   Lemma state_login_survives i0 sched s :
-    (B <> 0 \/ b <> 0) ->
     rinv X B b i0 s ->
-    nth_error (snd (rrun true s sched)) i0 = Some RDone ->
-    rloc (fst (rrun true s sched)) X = Some (B, b).
+    nth_error (snd (rrun true rot s sched)) i0 = Some RDone ->
+    rloc (fst (rrun true rot s sched)) X = Some (B, b).
   Proof.
-    intros Hnz H E. destruct (rinv_run i0 sched s H) as [_ HM]. rewrite E in HM.
+    intros H E. destruct (rinv_run i0 sched s H) as [_ HM]. rewrite E in HM.
     destruct HM as [v Hv]. unfold rloc, live. rewrite Hv.
     assert (Ht : is_tomb (B, b, v) = false).
     { unfold is_tomb, rval_eqb, tomb. destruct Hnz as [Hn|Hn]; apply N.eqb_neq in Hn; rewrite Hn; [reflexivity|].
@@ -228,14 +236,21 @@ Fixpoint all_scheds (k : nat) (n : nat) : list (list nat) :=
   | O => [[]]
   | S k' => flat_map (fun s => map (fun i => i :: s) (seq 0 n)) (all_scheds k' n)
   end.
-Definition completed (s : Threads.st rshared rprog) : Threads.st rshared rprog := rrun true s [0;0;0;0;0;0;0;0;1;1]%nat.
+Definition completed (rot : bool) (s : Threads.st rshared rprog) : Threads.st rshared rprog := rrun true rot s [0;0;0;0;0;0;0;0;1;1]%nat.
 Definition loc_is (o : option (N * N)) (n c : N) : bool := loc_eqb o n c.
 
-Lemma cas_state_windows_closed :
-  forallb (fun sched => loc_is (rloc (fst (completed (rrun true (rs_old, [RDisc 7 1 10 0; RConnect 7 2 20]) sched))) 7) 2 20)
+Lemma cas_state_windows_closed : forall rot : bool,
+  forallb (fun sched => loc_is (rloc (fst (completed rot (rrun true rot (rs_old, [RDisc 7 1 10 0; RConnect 7 2 20]) sched))) 7) 2 20)
           (all_scheds 6 2) = true /\
-  forallb (fun sched => loc_is (rloc (fst (completed (rrun true (rs_old, [REnsure 7 1 10 0; RConnect 7 2 20]) sched))) 7) 2 20)
+  forallb (fun sched => loc_is (rloc (fst (completed rot (rrun true rot (rs_old, [REnsure 7 1 10 0; RConnect 7 2 20]) sched))) 7) 2 20)
           (all_scheds 6 2) = true.
+Proof. intros [|]; split; vm_compute; reflexivity. Qed.
+
+(* the rebuild after a matched delete: with rot the heartbeat of a still-registered older connection rebuilds the record at
+   once; without it the SetNX meets the tombstone and the record stays absent (until the tombstone's 1 s ttl, not modelled) *)
+Lemma rebuild_over_tombstone :
+  rloc (fst (rrun true true (rs_old, [RDisc 7 1 10 0; REnsure 7 3 30 0]) [0;0;1;1;1]%nat)) 7 = Some (3, 30) /\
+  rloc (fst (rrun true false (rs_old, [RDisc 7 1 10 0; REnsure 7 3 30 0]) [0;0;1;1;1]%nat)) 7 = None.
 Proof. split; vm_compute; reflexivity. Qed.
 
 Definition moving_state_system : Threads.st rshared rprog :=
